@@ -25,15 +25,47 @@ def NoRaise (o : ColOracle) (c : Column) : Prop :=
   ∀ src dst g t, guard o src dst = some g → xform o src dst = some t → containsB src c = true →
     g c = .ok true → ∃ c', t c = .ok c'
 
+/-- the class name `ip_address(s)` reports is an address class, not `date`/`time` -/
+def IpCls (f : StrFacts) : Prop := ∀ cls r, f.ip = .ok (cls, r) → cls ≠ "date" ∧ cls ≠ "time"
+
+/-- what the dtype guarantees about the payload of non-missing cells (float64 holds floats, datetime64 holds timestamps) -/
+structure DtypePay (c : Column) : Prop where
+  float : c.dtype.isFloat = true → ∀ x ∈ c.cells, x.null = false → ∃ v, x.pay = .float v
+  datetime : c.dtype.isDatetime = true → ∀ x ∈ c.cells, x.null = false → ∃ d ns tz, x.pay = .ts d ns tz
+
+/-- a cell produced by a transformer -/
+structure OutCell (x : Cell) : Prop where
+  str : x.str = none
+  wf : CellWF x
+  pay : PayWF x
+  notPath : x.null = false → x.isPath = false
+  notStr : x.null = false → x.isStr = false
+  head : x.null = false → HeadExcl x
+  ts : x.null = false → ∀ d ns tz, x.pay = .ts d ns tz → 1 ≤ d ∧ d ≤ 3652059
+
+
+/-- a cell of a `pd.to_datetime` result: a produced cell that is `NaT` or a timestamp -/
+structure TsCell (y : Cell) : Prop where
+  out : OutCell y
+  pay : y.null = false → ∃ d ns tz, y.pay = .ts d ns tz
+  plain : y.null = false → ∀ a ∈ objValued, objPred a y = false
+
+/-- `pd.to_datetime` returns timestamps or `NaT`, and the timestamps are representable as `datetime.date`
+(years 1..9999, part of `OutCell`; false for the inputs of known finding F31) -/
+def DtOut (o : ColOracle) (c : Column) : Prop :=
+  ∀ r tz, o.toDatetime c.cells = .ok (r, tz) → ∀ y ∈ r, TsCell y
+
 structure Good (o : ColOracle) (c : Column) : Prop where
   cellwf : ∀ x ∈ c.cells, CellWF x
   paywf : ∀ x ∈ c.cells, PayWF x
   strNotNull : StrNotNull c
   dtypeCells : DtypeCells c
   headExcl : ∀ x ∈ c.cells, x.null = false → HeadExcl x
-  strHyp : ∀ x ∈ c.cells, ∀ f, x.str = some f → StrExcl f ∧ FloatComplex f
-  dtExcl : DtExcl o c
-  dtLands : DtLands o c
+  strHyp : ∀ x ∈ c.cells, ∀ f, x.str = some f → StrExcl f ∧ FloatComplex f ∧ IpCls f
+  dtypePay : DtypePay c
+  dtExcl : containsB .String c = true → DtExcl o c
+  dtLands : containsB .String c = true → DtLands o c
+  dtOut : containsB .String c = true → DtOut o c
   excl16 : ∀ child, containsB child c = true → Excl16 child c = false
   noRaise : NoRaise o c
 
@@ -206,7 +238,7 @@ theorem pandas_WF (o : ColOracle) (b : Built Ty) (ft : FromTable b) (og : Output
           by_cases hne : r₁.dst = r₂.dst
           · exact hne
           · exact absurd ⟨accept_inf ft h₁ i₁ x g₁, accept_inf ft h₂ i₂ x g₂⟩
-              (mutex_string o x hv hG.strNotNull hG.strHyp hG.dtExcl r₁.dst r₂.dst c₁ c₂ hne)
+              (mutex_string o x hv hG.strNotNull (fun y hy f hf => ⟨(hG.strHyp y hy f hf).1, (hG.strHyp y hy f hf).2.1⟩) (hG.dtExcl hc') r₁.dst r₂.dst c₁ c₂ hne)
         · exact outOf_thin n ⟨hgen, hobj, hstr⟩ _ m₁ _ m₂
   lands := by
     intro n r x hr hG hc hg
